@@ -747,32 +747,131 @@ Qed.
 Theorem v1_eq_v1alpha st evs : forall closed, serve_v1 st closed evs = serve_v1alpha st closed evs.
 Proof.
   induction evs as [|e evs IH]; intros closed; cbn [serve_v1 serve_v1alpha]; [reflexivity|].
-  destruct e as [q| |]; [|reflexivity|apply IH].
+  destruct e as [h q| |]; [|reflexivity|apply IH].
   destruct (answer st q); [|reflexivity]. destruct closed; [reflexivity|]. now rewrite IH.
 Qed.
 
+(* the answer to one request, with its envelope: the host and the request are echoed *)
+Definition respond (st : state) (h : name) (q : request) : reply + N :=
+  match answer st q with
+  | inl m => inl (mkReply h (Some (h, q)) m)
+  | inr code => inr code
+  end.
+Definition req_of (hq : name * request) : event := Req (fst hq) (snd hq).
+
 (* answers up to and including the first error *)
-Fixpoint upto_first_error (l : list (response + N)) : list (response + N) :=
+Fixpoint upto_first_error (l : list (reply + N)) : list (reply + N) :=
   match l with
   | [] => []
   | inl m :: r => inl m :: upto_first_error r
   | inr c :: _ => [inr c]
   end.
 
-Theorem serve_answers st qs :
-  serve_v1 st false (map Req qs) = (upto_first_error (map (answer st) qs), Ended).
+Theorem serve_answers st hqs :
+  serve_v1 st false (map req_of hqs) =
+  (upto_first_error (map (fun hq => respond st (fst hq) (snd hq)) hqs), Ended).
 Proof.
-  induction qs as [|q qs IH]; cbn [map serve_v1 upto_first_error]; [reflexivity|].
-  destruct (answer st q); [|reflexivity]. now rewrite IH.
+  unfold req_of.
+  induction hqs as [|[h q] hqs IH]; cbn [map fst snd serve_v1 upto_first_error]; [reflexivity|].
+  unfold respond at 1. destruct (answer st q); [|reflexivity].
+  cbn [upto_first_error]. now rewrite IH.
+Qed.
+
+Theorem serve_single st h q : serve_v1 st false [Req h q] = ([respond st h q], Ended).
+Proof. cbn [serve_v1]. unfold respond. now destruct (answer st q). Qed.
+
+(* every message that is sent echoes a request of the stream and its host, and carries the answer
+   to that request *)
+Definition echoes (st : state) (evs : list event) (a : reply + N) : Prop :=
+  match a with
+  | inl r => exists h q, In (Req h q) evs /\ valid_host r = h /\ original_request r = Some (h, q) /\
+                         answer st q = inl (message_response r)
+  | inr _ => True
+  end.
+
+Theorem serve_echo st evs : forall closed, Forall (echoes st evs) (fst (serve_v1 st closed evs)).
+Proof.
+  induction evs as [|e evs IH]; intros closed; cbn [serve_v1 fst]; [constructor|].
+  assert (W : forall a, echoes st evs a -> echoes st (e :: evs) a).
+  { intros [r|c]; [|trivial]. intros [h [q [Hi R]]]. exists h, q. split; [now right | exact R]. }
+  destruct e as [h q| |].
+  - destruct (answer st q) as [m|c] eqn:A.
+    + destruct closed; [constructor|].
+      specialize (IH false). destruct (serve_v1 st false evs) as [out e']. cbn [fst] in *.
+      constructor.
+      * exists h, q. cbn [original_request valid_host message_response]. split; [now left | auto].
+      * eapply Forall_impl; [exact W | exact IH].
+    + destruct closed; repeat constructor.
+  - constructor.
+  - eapply Forall_impl; [exact W | exact (IH true)].
 Qed.
 
 (* the spawned task panics only if it has to answer after the receiver is gone *)
 Theorem serve_no_panic st evs : ~ In RxDrop evs -> snd (serve_v1 st false evs) = Ended.
 Proof.
   induction evs as [|e evs IH]; intros H; cbn [serve_v1]; [reflexivity|].
-  destruct e as [q| |]; [|reflexivity|exfalso; apply H; now left].
+  destruct e as [h q| |]; [|reflexivity|exfalso; apply H; now left].
   destruct (answer st q); [|reflexivity].
   specialize (IH (fun Hi => H (or_intror Hi))). destruct (serve_v1 st false evs). exact IH.
+Qed.
+
+(* ... and exactly then: the client dropped the response stream while every earlier request had
+   been answered with a message, and another request arrives (whatever it asks) *)
+Lemma serve_closed_panics st evs :
+  snd (serve_v1 st true evs) = Panic <->
+  exists mid h q post, evs = mid ++ Req h q :: post /\ forall e, In e mid -> e = RxDrop.
+Proof.
+  induction evs as [|e evs IH]; cbn [serve_v1 snd].
+  - split; [discriminate|]. intros [mid [h [q [post [E _]]]]]. destruct mid; discriminate.
+  - destruct e as [h q| |].
+    + split.
+      * intros _. exists [], h, q, evs. split; [reflexivity|]. intros e [].
+      * intros _. destruct (answer st q); reflexivity.
+    + split; [discriminate|]. intros [mid [h [q [post [E Hm]]]]]. destruct mid as [|x mid]; [discriminate|].
+      cbn [app] in E. injection E as <- _. specialize (Hm ReqErr (or_introl eq_refl)). discriminate.
+    + rewrite IH. split.
+      * intros [mid [h [q [post [-> Hm]]]]]. exists (RxDrop :: mid), h, q, post. split; [reflexivity|].
+        intros e [<-|He]; [reflexivity | now apply Hm].
+      * intros [mid [h [q [post [E Hm]]]]]. destruct mid as [|x mid]; [discriminate|].
+        cbn [app] in E. injection E as _ ->. exists mid, h, q, post. split; [reflexivity|].
+        intros e He. apply Hm. now right.
+Qed.
+
+Definition answered_ok (st : state) (e : event) : Prop :=
+  exists h q m, e = Req h q /\ answer st q = inl m.
+
+Theorem serve_panics_iff st evs :
+  snd (serve_v1 st false evs) = Panic <->
+  exists pre mid h q post,
+    evs = pre ++ RxDrop :: mid ++ Req h q :: post /\
+    (forall e, In e pre -> answered_ok st e) /\ (forall e, In e mid -> e = RxDrop).
+Proof.
+  induction evs as [|e evs IH]; cbn [serve_v1 snd].
+  - split; [discriminate|]. intros [pre [mid [h [q [post [E _]]]]]]. destruct pre; discriminate.
+  - destruct e as [h q| |].
+    + destruct (answer st q) as [m|c] eqn:A.
+      * assert (S : snd (let '(out, e) := serve_v1 st false evs in (inl (mkReply h (Some (h, q)) m) :: out, e)) =
+                    snd (serve_v1 st false evs)) by (now destruct (serve_v1 st false evs)).
+        rewrite S, IH. split.
+        -- intros [pre [mid [h' [q' [post [-> [Hp Hm]]]]]]]. exists (Req h q :: pre), mid, h', q', post.
+           split; [reflexivity|]. split; [|exact Hm]. intros e [<-|He]; [|now apply Hp].
+           exists h, q, m. auto.
+        -- intros [pre [mid [h' [q' [post [E [Hp Hm]]]]]]]. destruct pre as [|x pre]; [discriminate|].
+           cbn [app] in E. injection E as _ ->. exists pre, mid, h', q', post. split; [reflexivity|].
+           split; [|exact Hm]. intros e He. apply Hp. now right.
+      * cbn [snd]. split; [discriminate|]. intros [pre [mid [h' [q' [post [E [Hp _]]]]]]].
+        destruct pre as [|x pre]; [discriminate|]. cbn [app] in E. injection E as <- _.
+        destruct (Hp (Req h q) (or_introl eq_refl)) as [h0 [q0 [m0 [E0 A0]]]]. injection E0 as <- <-. congruence.
+    + cbn [snd]. split; [discriminate|]. intros [pre [mid [h' [q' [post [E [Hp _]]]]]]].
+      destruct pre as [|x pre]; [discriminate|]. cbn [app] in E. injection E as <- _.
+      destruct (Hp ReqErr (or_introl eq_refl)) as [h0 [q0 [m0 [E0 _]]]]. discriminate.
+    + rewrite serve_closed_panics. split.
+      * intros [mid [h [q [post [-> Hm]]]]]. exists [], mid, h, q, post. split; [reflexivity|].
+        split; [intros e []|exact Hm].
+      * intros [pre [mid [h [q [post [E [Hp Hm]]]]]]]. destruct pre as [|x pre].
+        -- cbn [app] in E. injection E as ->. eauto 6.
+        -- cbn [app] in E. injection E as <- _.
+           destruct (Hp RxDrop (or_introl eq_refl)) as [h0 [q0 [m0 [E0 _]]]]. discriminate.
 Qed.
 
 (* ------------------------------------------------------------------ v1 against v1alpha *)
@@ -849,30 +948,410 @@ Section Wire.
   Hypothesis decode_encode : forall f, decode_file (encode_file f) = Some f.
 
   (* FileDescriptorResponse { file_descriptor_proto: vec![encoded_fd] } *)
-  Definition wire_descriptors (a : response + N) : option (list (list N)) :=
+  Definition wire_descriptors (a : reply + N) : option (list (list N)) :=
     match a with
-    | inl (FileDescriptorResponse f) => Some [encode_file f]
+    | inl (mkReply _ _ (FileDescriptorResponse f)) => Some [encode_file f]
     | _ => None
     end.
 
   Theorem file_retrievable_decodes own b st n f :
     build own b = Ok st ->
     first_named (builder_files own b) f -> f_name f = Some n ->
-    exists bytes, wire_descriptors (answer st (FileByFilename n)) = Some [bytes] /\
+    forall h, exists bytes, wire_descriptors (respond st h (FileByFilename n)) = Some [bytes] /\
                   decode_file bytes = Some f.
   Proof.
-    intros B Hf Hn. cbn [answer]. rewrite (files_exact _ _ _ B), (first_named_find _ _ _ Hf Hn).
+    intros B Hf Hn h. unfold respond. cbn [answer]. rewrite (files_exact _ _ _ B), (first_named_find _ _ _ Hf Hn).
     cbn [wire_descriptors]. eauto.
   Qed.
 
   Theorem symbol_resolves_decodes own b st f s :
     build own b = Ok st ->
     first_named (builder_files own b) f -> declares f s ->
-    exists bytes f', wire_descriptors (answer st (FileContainingSymbol s)) = Some [bytes] /\
+    forall h, exists bytes f', wire_descriptors (respond st h (FileContainingSymbol s)) = Some [bytes] /\
                      decode_file bytes = Some f' /\
                      first_named (builder_files own b) f' /\ declares f' s.
   Proof.
-    intros B Hf D. destruct (symbols_complete _ _ _ B f s Hf D) as [f' [E [Hf' D']]].
-    cbn [answer]. rewrite E. cbn [wire_descriptors]. eauto 6.
+    intros B Hf D h. destruct (symbols_complete _ _ _ B f s Hf D) as [f' [E [Hf' D']]].
+    unfold respond. cbn [answer]. rewrite E. cbn [wire_descriptors]. eauto 6.
   Qed.
 End Wire.
+
+(* ------------------------------------------------------------------ declared_names = declares *)
+Lemma onames_in p l s : In s (onames p l) <-> exists v, In (Some v) l /\ s = qual p v.
+Proof.
+  unfold onames. rewrite in_flat_map. split.
+  - intros [[v|] [Hin Hs]]; [|destruct Hs]. destruct Hs as [<-|[]]. eauto.
+  - intros [v [Hin ->]]. exists (Some v). split; [exact Hin | now left].
+Qed.
+
+Lemma enum_names_in p e s : In s (enum_names p e) <-> enum_declares p e s.
+Proof.
+  destruct e as [[n|] vs]; cbn [enum_names].
+  - cbn [In]. rewrite onames_in. split.
+    + intros [<-|[v [Hv ->]]]; [constructor | now constructor].
+    + intros D. inversion D; subst; [now left | right; eauto].
+  - split; [intros [] | intros D; inversion D].
+Qed.
+
+Lemma service_sym_names_in p sv s : In s (service_sym_names p sv) <-> service_declares p sv s.
+Proof.
+  destruct sv as [[n|] ms]; cbn [service_sym_names].
+  - cbn [In]. rewrite onames_in. split.
+    + intros [<-|[v [Hv ->]]]; [constructor | now constructor].
+    + intros D. inversion D; subst; [now left | right; eauto].
+  - split; [intros [] | intros D; inversion D].
+Qed.
+
+Lemma msg_names_eq p n ns es fs os :
+  msg_names p (Msg (Some n) ns es fs os) =
+  qual p n :: flat_map (msg_names (qual p n)) ns ++ flat_map (enum_names (qual p n)) es ++
+              onames (qual p n) fs ++ onames (qual p n) os.
+Proof. reflexivity. Qed.
+
+Lemma msg_names_in m : forall p s, In s (msg_names p m) <-> msg_declares p m s.
+Proof.
+  induction m as [n ns es fs os IH] using msg_ind'. intros p s. destruct n as [n|].
+  - rewrite msg_names_eq. cbn [In]. rewrite !in_app_iff, !in_flat_map, !onames_in.
+    rewrite Forall_forall in IH. split.
+    + intros [<-|[[x [Hx Hs]]|[[x [Hx Hs]]|[[v [Hv ->]]|[v [Hv ->]]]]]].
+      * constructor.
+      * eapply MD_nested; [exact Hx|]. now apply IH.
+      * eapply MD_enum; [exact Hx|]. now apply enum_names_in.
+      * now apply MD_field.
+      * now apply MD_oneof.
+    + intros D. inversion D; subst.
+      * now left.
+      * right; left. eexists; split; [eassumption|]. now apply IH.
+      * right; right; left. eexists; split; [eassumption|]. now apply enum_names_in.
+      * right; right; right; left. eauto.
+      * right; right; right; right. eauto.
+  - cbn [msg_names]. split; [intros [] | intros D; inversion D].
+Qed.
+
+Theorem declared_names_spec f s : In s (declared_names f) <-> declares f s.
+Proof.
+  unfold declared_names. rewrite !in_app_iff, !in_flat_map. split.
+  - intros [[x [Hx Hs]]|[[x [Hx Hs]]|[x [Hx Hs]]]].
+    + eapply D_message; [exact Hx|]. now apply msg_names_in.
+    + eapply D_enum; [exact Hx|]. now apply enum_names_in.
+    + eapply D_service; [exact Hx|]. now apply service_sym_names_in.
+  - intros D. inversion D; subst.
+    + left. eexists; split; [eassumption|]. now apply msg_names_in.
+    + right; left. eexists; split; [eassumption|]. now apply enum_names_in.
+    + right; right. eexists; split; [eassumption|]. now apply service_sym_names_in.
+Qed.
+
+Theorem declares_b_spec f s : declares_b f s = true <-> declares f s.
+Proof.
+  unfold declares_b. rewrite existsb_name_in. apply declared_names_spec.
+Qed.
+
+(* ------------------------------------------------------------------ build = Ok: the converse *)
+Lemma fold_r_ok_each {A S} (f : A -> S -> result S) l : forall s s',
+  fold_r f l s = Ok s' -> forall x, In x l -> exists a b, f x a = Ok b.
+Proof.
+  induction l as [|y l IH]; intros s s' H x Hx; [destruct Hx|]. cbn [fold_r] in H.
+  destruct (f y s) as [s1|] eqn:E; [|discriminate]. destruct Hx as [<-|Hx]; [eauto | eapply IH; eauto].
+Qed.
+
+Lemma process_named_ok_present fd p k n a b : process_named fd p k n a = Ok b -> name_present n = true.
+Proof.
+  unfold process_named. destruct (extract_name p k n) as [x|] eqn:E; [|discriminate].
+  apply extract_name_qual in E as [v [-> _]]. reflexivity.
+Qed.
+
+Lemma fold_named_ok fd p k l a b :
+  fold_r (process_named fd p k) l a = Ok b -> forallb name_present l = true.
+Proof.
+  intros H. apply forallb_forall. intros x Hx.
+  destruct (fold_r_ok_each _ _ _ _ H x Hx) as [a' [b' E]]. eapply process_named_ok_present; eauto.
+Qed.
+
+Lemma process_enum_ok_complete fd p e a b : process_enum fd p e a = Ok b -> enum_complete e = true.
+Proof.
+  destruct e as [n vs]. cbn [process_enum enum_complete].
+  destruct (extract_name p K_enum n) as [x|] eqn:E; [|discriminate].
+  apply extract_name_qual in E as [v [-> _]]. intros H. cbn [name_present andb]. eapply fold_named_ok; eauto.
+Qed.
+
+Lemma process_message_ok_complete fd m : forall p a b,
+  process_message fd p m a = Ok b -> msg_complete m = true.
+Proof.
+  induction m as [n ns es fs os IH] using msg_ind'. intros p a b H. rewrite process_message_eq in H.
+  destruct (extract_name p K_message n) as [x|] eqn:E; [|discriminate].
+  apply extract_name_qual in E as [v [-> ->]]. cbv zeta in H.
+  destruct (fold_r (process_message fd (qual p v)) ns _) as [s1|] eqn:E1; [|discriminate].
+  destruct (fold_r (process_enum fd (qual p v)) es s1) as [s2|] eqn:E2; [|discriminate].
+  destruct (fold_r (process_field fd (qual p v)) fs s2) as [s3|] eqn:E3; [|discriminate].
+  cbn [msg_complete name_present andb]. rewrite Forall_forall in IH.
+  repeat (apply andb_true_iff; split).
+  - apply forallb_forall. intros x Hx. destruct (fold_r_ok_each _ _ _ _ E1 x Hx) as [a' [b' Ex]]. eapply IH; eauto.
+  - apply forallb_forall. intros x Hx. destruct (fold_r_ok_each _ _ _ _ E2 x Hx) as [a' [b' Ex]].
+    eapply process_enum_ok_complete; eauto.
+  - eapply fold_named_ok. exact E3.
+  - eapply fold_named_ok. exact H.
+Qed.
+
+Lemma process_service_ok_complete fd p ua sv acc acc' :
+  process_service fd p ua sv acc = Ok acc' -> service_complete sv = true.
+Proof.
+  destruct sv as [n ms]. cbn [process_service service_complete].
+  destruct (extract_name p K_service n) as [x|] eqn:E; [|discriminate].
+  apply extract_name_qual in E as [v [-> ->]].
+  destruct (fold_r (process_named fd (qual p v) K_method) ms _) as [s1|] eqn:E1; [|discriminate].
+  intros _. cbn [name_present andb]. eapply fold_named_ok; eauto.
+Qed.
+
+Lemma process_file_ok_complete fd ua st st' : process_file fd ua st = Ok st' -> file_complete fd = true.
+Proof.
+  unfold process_file, file_complete.
+  destruct (fold_r (process_message fd (pkg fd)) (f_msgs fd) (symbols st)) as [s1|] eqn:E1; [|discriminate].
+  destruct (fold_r (process_enum fd (pkg fd)) (f_enums fd) s1) as [s2|] eqn:E2; [|discriminate].
+  destruct (fold_r (process_service fd (pkg fd) ua) (f_services fd) (service_names st, s2)) as [[ns s3]|] eqn:E3;
+    [|discriminate].
+  intros _. repeat (apply andb_true_iff; split); apply forallb_forall; intros x Hx.
+  - destruct (fold_r_ok_each _ _ _ _ E1 x Hx) as [a' [b' Ex]]. eapply process_message_ok_complete; eauto.
+  - destruct (fold_r_ok_each _ _ _ _ E2 x Hx) as [a' [b' Ex]]. eapply process_enum_ok_complete; eauto.
+  - destruct (fold_r_ok_each _ _ _ _ E3 x Hx) as [a' [b' Ex]]. eapply process_service_ok_complete; eauto.
+Qed.
+
+Lemma new_loop_ok_inv ua l : forall st st',
+  fold_r (new_step ua) l st = Ok st' ->
+  Forall (fun f => f_name f <> None) l /\
+  Forall (fun f => file_complete f = true) (effective_from (map fst (files st)) l).
+Proof.
+  induction l as [|fd l IH]; intros st st' H; cbn [fold_r] in H; cbn [effective_from].
+  - split; constructor.
+  - destruct (new_step ua fd st) as [st1|] eqn:E1; [|discriminate].
+    unfold new_step in E1. destruct (f_name fd) as [n|] eqn:En; [|discriminate].
+    rewrite <- map_contains_keys. destruct (map_contains (files st) n) eqn:C.
+    + injection E1 as <-. destruct (IH _ _ H) as [I1 I2]. split; [|exact I2].
+      constructor; [congruence | exact I1].
+    + pose proof (process_file_ok_complete _ _ _ _ E1) as Hc.
+      apply process_file_spec in E1 as [F _]. cbn [files] in F.
+      destruct (IH _ _ H) as [I1 I2]. rewrite F in I2. cbn [map fst] in I2.
+      split; constructor; auto. congruence.
+Qed.
+
+Theorem build_ok_inv own b st :
+  build own b = Ok st ->
+  Forall (fun o => o <> None) (b_encoded b) /\
+  Forall (fun f => f_name f <> None) (builder_files own b) /\
+  Forall (fun f => file_complete f = true) (effective (builder_files own b)).
+Proof.
+  intros H. pose proof (build_ok_files_named _ _ _ H) as Hd.
+  unfold build, builder_files, effective, registration_order, new in *.
+  destruct (b_include_reflection b);
+    cbn [register_encoded_file_descriptor_set b_encoded b_sets b_names b_use_all] in H;
+    rewrite decode_all_total in H by exact Hd; rewrite fold_r_concat in H;
+    apply new_loop_ok_inv in H as [H1 H2]; cbn [files map] in H2.
+  - split; [|split; assumption]. apply Forall_app in Hd. tauto.
+  - split; [|split]; assumption.
+Qed.
+
+Theorem build_ok_iff own b :
+  (exists st, build own b = Ok st) <->
+  Forall (fun o => o <> None) (b_encoded b) /\
+  Forall (fun f => f_name f <> None) (builder_files own b) /\
+  Forall (fun f => file_complete f = true) (effective (builder_files own b)).
+Proof.
+  split.
+  - intros [st H]. exact (build_ok_inv _ _ _ H).
+  - intros [H1 [H2 H3]]. now apply build_succeeds.
+Qed.
+
+(* the user's sets are walked before a version's own descriptor: an error in them is the error of
+   both versions *)
+Theorem build_user_error own b e :
+  new (b_names b) (b_encoded b) (b_sets b) (b_use_all b) = Err e -> build own b = Err e.
+Proof.
+  intros H. destruct (b_include_reflection b) eqn:I.
+  - rewrite build_split by exact I. now rewrite H.
+  - unfold build. now rewrite I.
+Qed.
+
+(* ------------------------------------------------------------------ whichever file answers to a
+   file name: all its names resolve *)
+Theorem live_file_symbols_resolve own b st n f :
+  build own b = Ok st -> file_by_filename st n = Some f ->
+  forall s, declares f s -> exists f', symbol_by_name st s = Some f' /\ declares f' s.
+Proof.
+  intros B H s D. apply (file_found_is_first_named _ _ _ B) in H as [Hf _].
+  destruct (symbols_complete _ _ _ B f s Hf D) as [f' [E [_ D']]]. eauto.
+Qed.
+
+(* a name that resolves: its file is itself retrievable under its own file name *)
+Theorem resolved_file_is_retrievable own b st s f :
+  build own b = Ok st -> symbol_by_name st s = Some f ->
+  exists n, f_name f = Some n /\ file_by_filename st n = Some f.
+Proof.
+  intros B H. apply (symbols_sound _ _ _ B) in H as [Hf _].
+  destruct Hf as [pre [post [n [E [Hn Hp]]]]]. exists n. split; [exact Hn|].
+  apply (file_found_is_first_named _ _ _ B). split; [|exact Hn]. exists pre, post, n. auto.
+Qed.
+
+(* whatever the request: a descriptor is sent only for a file/symbol request, and it is the one
+   the tables hold *)
+Theorem descriptor_only_from_tables st h q r f :
+  respond st h q = inl r -> message_response r = FileDescriptorResponse f ->
+  (exists n, q = FileByFilename n /\ file_by_filename st n = Some f) \/
+  (exists s, q = FileContainingSymbol s /\ symbol_by_name st s = Some f).
+Proof.
+  unfold respond. destruct q as [|n|s|t k|t|c]; cbn [answer]; try discriminate.
+  - destruct (file_by_filename st n) as [g|] eqn:E; [|discriminate]. intros H. injection H as <-.
+    cbn [message_response]. intros H. injection H as ->. left. eauto.
+  - destruct (symbol_by_name st s) as [g|] eqn:E; [|discriminate]. intros H. injection H as <-.
+    cbn [message_response]. intros H. injection H as ->. right. eauto.
+  - intros H. injection H as <-. discriminate.
+  - intros H. injection H as <-. discriminate.
+Qed.
+
+(* ------------------------------------------------------------------ what the harness evaluates *)
+Lemma olist_ext {A} (f g : A -> tr) l : (forall x, f x = g x) -> olist f l = olist g l.
+Proof. intros H. unfold olist. f_equal. apply map_ext. exact H. Qed.
+
+Theorem obs_version_built own b st qs sc :
+  build own b = Ok st ->
+  obs_version serve_v1 own b qs sc =
+  Nd [Nn 1; olist (fun hq => obs_stream ([respond st (fst hq) (snd hq)], Ended)) qs;
+      obs_stream (serve_v1 st false sc)].
+Proof.
+  intros B. unfold obs_version. rewrite B.
+  rewrite (olist_ext _ (fun hq => obs_stream ([respond st (fst hq) (snd hq)], Ended))); [reflexivity|].
+  intros hq. now rewrite serve_single.
+Qed.
+
+Theorem obs_version_same_without_own own1 own2 b qs sc :
+  b_include_reflection b = false ->
+  obs_version serve_v1 own1 b qs sc = obs_version serve_v1alpha own2 b qs sc.
+Proof.
+  intros I. unfold obs_version. rewrite (same_state_without_own_descriptor own1 own2 b I).
+  destruct (build own2 b) as [st|]; [|reflexivity].
+  rewrite v1_eq_v1alpha.
+  rewrite (olist_ext _ (fun hq => obs_stream (serve_v1alpha st false [Req (fst hq) (snd hq)]))); [reflexivity|].
+  intros hq. now rewrite v1_eq_v1alpha.
+Qed.
+
+(* a request whose answer cannot depend on the versions' own descriptors *)
+Definition neutral (own1 own2 : fds) (b : builder) (q : request) : Prop :=
+  match q with
+  | FileContainingSymbol s => forall f, In f own1 \/ In f own2 -> ~ declares f s
+  | FileByFilename n => forall f, In f own1 \/ In f own2 -> f_name f <> Some n
+  | ListServices _ => b_use_all b = false
+  | _ => True
+  end.
+
+Theorem versions_agree_on_neutral own1 own2 b st1 st2 :
+  build own1 b = Ok st1 -> build own2 b = Ok st2 ->
+  forall h q, neutral own1 own2 b q ->
+  serve_v1 st1 false [Req h q] = serve_v1alpha st2 false [Req h q].
+Proof.
+  intros B1 B2 h q Hn. rewrite <- (v1_eq_v1alpha st2), !serve_single. f_equal. f_equal.
+  destruct (v1_v1alpha_agree _ _ _ _ _ B1 B2) as [S [F [common [E1 [E2 [L1 [L2 [Hu _]]]]]]]].
+  unfold respond. destruct q as [|n|s|t k|t|c]; cbn [answer neutral] in *; try reflexivity.
+  - now rewrite (F n Hn).
+  - now rewrite (S s Hn).
+  - destruct (Hu Hn) as [-> ->]. rewrite L1, L2. reflexivity.
+Qed.
+
+Theorem versions_build_alike own1 own2 b e :
+  new (b_names b) (b_encoded b) (b_sets b) (b_use_all b) = Err e ->
+  obs_version serve_v1 own1 b = obs_version serve_v1alpha own2 b.
+Proof.
+  intros H. unfold obs_version.
+  now rewrite (build_user_error own1 b e H), (build_user_error own2 b e H).
+Qed.
+
+Theorem file_query_stream own b st n f h : build own b = Ok st ->
+  first_named (builder_files own b) f -> f_name f = Some n ->
+  serve_v1 st false [Req h (FileByFilename n)] =
+  ([inl (mkReply h (Some (h, FileByFilename n)) (FileDescriptorResponse f))], Ended).
+Proof.
+  intros B Hf Hn. rewrite serve_single. unfold respond. cbn [answer].
+  now rewrite (files_exact _ _ _ B), (first_named_find _ _ _ Hf Hn).
+Qed.
+
+Theorem symbol_query_stream own b st f s h : build own b = Ok st ->
+  first_named (builder_files own b) f -> declares f s ->
+  exists f', first_named (builder_files own b) f' /\ declares f' s /\
+    serve_v1 st false [Req h (FileContainingSymbol s)] =
+    ([inl (mkReply h (Some (h, FileContainingSymbol s)) (FileDescriptorResponse f'))], Ended).
+Proof.
+  intros B Hf D. destruct (symbols_complete _ _ _ B f s Hf D) as [f' [E [Hf' D']]].
+  exists f'. split; [exact Hf'|]. split; [exact D'|]. rewrite serve_single. unfold respond. cbn [answer].
+  now rewrite E.
+Qed.
+
+Theorem versions_build_alike_err own1 own2 b e :
+  new (b_names b) (b_encoded b) (b_sets b) (b_use_all b) = Err e ->
+  build own1 b = Err e /\ build own2 b = Err e.
+Proof. intros H. split; now apply build_user_error. Qed.
+
+(* ------------------------------------------------------------------ duplicate registration of
+   the same file: if files registered under one file name are all the same file, no file is
+   shadowed and the property holds for EVERY registered file *)
+Definition consistent (fs : list file) : Prop :=
+  forall f g, In f fs -> In g fs -> f_name f = f_name g -> f = g.
+
+Lemma find_some_in {A} (p : A -> bool) l x : find p l = Some x -> In x l.
+Proof. intros H. now apply find_some in H. Qed.
+
+Lemma consistent_first_named fs f n :
+  consistent fs -> In f fs -> f_name f = Some n -> first_named fs f.
+Proof.
+  intros C Hin Hn. destruct (find (named n) fs) as [g|] eqn:E.
+  - pose proof (find_some_in _ _ _ E) as Hg. destruct (find_named_first _ _ _ E) as [Fg Ng].
+    assert (g = f) by (apply C; auto; congruence). now subst.
+  - exfalso. exact (proj1 (find_named_none n fs) E f Hin Hn).
+Qed.
+
+Theorem consistent_registration_full own b st :
+  build own b = Ok st -> consistent (builder_files own b) ->
+  forall f, In f (builder_files own b) ->
+  (exists n, f_name f = Some n /\ file_by_filename st n = Some f) /\
+  (forall s, declares f s ->
+     exists f', symbol_by_name st s = Some f' /\ In f' (builder_files own b) /\ declares f' s) /\
+  (forall s, declares f s -> (forall g, In g (builder_files own b) -> declares g s -> g = f) ->
+     symbol_by_name st s = Some f).
+Proof.
+  intros B C f Hin. destruct (build_ok_inv _ _ _ B) as [_ [Hnamed _]].
+  rewrite Forall_forall in Hnamed. specialize (Hnamed f Hin).
+  destruct (f_name f) as [n|] eqn:Hn; [clear Hnamed | congruence].
+  pose proof (consistent_first_named _ _ _ C Hin Hn) as Hf.
+  assert (Sub : forall g, first_named (builder_files own b) g -> In g (builder_files own b)).
+  { intros g [pre [post [m [-> _]]]]. apply in_or_app. right. now left. }
+  split; [|split].
+  - exists n. split; [reflexivity|]. apply (file_found_is_first_named _ _ _ B). auto.
+  - intros s D. destruct (symbols_complete _ _ _ B f s Hf D) as [f' [E [Hf' D']]]. eauto.
+  - intros s D U. apply (symbols_unique _ _ _ B f s Hf D). intros g Hg Dg. apply U; auto.
+Qed.
+
+(* ------------------------------------------------------------------ requests after a prefix of
+   requests that were all answered with a message *)
+Lemma serve_after_ok_prefix st pre rest :
+  Forall (fun hq => exists r, respond st (fst hq) (snd hq) = inl r) pre ->
+  serve_v1 st false (map req_of pre ++ rest) =
+  (map (fun hq => respond st (fst hq) (snd hq)) pre ++ fst (serve_v1 st false rest),
+   snd (serve_v1 st false rest)).
+Proof.
+  induction 1 as [|[h q] pre [r Hr] _ IH]; cbn [map app].
+  - now destruct (serve_v1 st false rest).
+  - unfold req_of at 1. cbn [fst snd serve_v1] in *. unfold respond in Hr |- *.
+    destruct (answer st q) as [m|c]; [|discriminate]. rewrite IH. reflexivity.
+Qed.
+
+(* an extension lookup ends the stream with NOT_FOUND wherever it stands and whatever is
+   registered; an all-extension-numbers request never ends it and lists nothing *)
+Theorem extension_requests_in_stream st pre h t n rest :
+  Forall (fun hq => exists r, respond st (fst hq) (snd hq) = inl r) pre ->
+  serve_v1 st false (map req_of pre ++ Req h (FileContainingExtension t n) :: rest) =
+    (map (fun hq => respond st (fst hq) (snd hq)) pre ++ [inr NOT_FOUND], Ended) /\
+  serve_v1 st false (map req_of pre ++ Req h (AllExtensionNumbersOfType t) :: rest) =
+    (map (fun hq => respond st (fst hq) (snd hq)) pre ++
+       inl (mkReply h (Some (h, AllExtensionNumbersOfType t)) AllExtensionNumbersResponse) ::
+       fst (serve_v1 st false rest),
+     snd (serve_v1 st false rest)).
+Proof.
+  intros H. rewrite !(serve_after_ok_prefix _ _ _ H). split; [reflexivity|].
+  cbn [serve_v1 answer]. now destruct (serve_v1 st false rest).
+Qed.
